@@ -293,7 +293,7 @@ Section Sort.
 
   (** * Buffer *)
   (* a leaf of the schema: max definition level (0 = required) *)
-  Definition colspec := N.
+  (* a leaf of the schema is given by its max definition level (0 = required) *)
   (* a sorting column: leaf index, descending, nulls first *)
   Record sortcol := mkSortcol { sc_col : nat; sc_desc : bool; sc_nf : bool }.
 
@@ -314,7 +314,7 @@ Section Sort.
     | None => false
     end.
 
-  Definition configure (schema : list colspec) (sorting : list sortcol) : buffer :=
+  Definition configure (schema : list N) (sorting : list sortcol) : buffer :=
     mkBuffer
       (mapi_from (fun k md => if N.eqb md 0 then CReq [] else COpt (new_ocol md (null_ordering sorting k)))
                  0%nat schema)
@@ -417,7 +417,7 @@ Section Sort.
     if optional then (if nf then cmp_nf c1 else cmp_nl c1) else c1.
 
   (* the comparison loop: first sorting column whose values differ *)
-  Fixpoint compare_rows (schema : list colspec) (sorting : list sortcol) (r1 r2 : row) : Z :=
+  Fixpoint compare_rows (schema : list N) (sorting : list sortcol) (r1 r2 : row) : Z :=
     match sorting with
     | [] => 0%Z
     | s :: t =>
@@ -435,7 +435,7 @@ Section Sort.
     | None => false
     end.
 
-  Definition configure_pinned (schema : list colspec) (sorting : list sortcol) : buffer :=
+  Definition configure_pinned (schema : list N) (sorting : list sortcol) : buffer :=
     mkBuffer
       (mapi_from (fun k md => if N.eqb md 0 then CReq [] else COpt (new_ocol md (null_ordering_pinned sorting k)))
                  0%nat schema)
